@@ -66,6 +66,9 @@ type c06Scenario struct {
 	Cancel         bool         `json:"cancel"`       // the user cancels Run's context (gated by a rule on api.cancel.gate)
 	D6Helper       bool         `json:"d6_helper"`
 	Unstarted      int          `json:"unstarted"` // handlers added after Run and never started with RunHandlers
+	LateHandler    bool         `json:"late_handler"` // a handler h<n> is added after Run and RunHandlers is called concurrently with the Close calls
+	RhRet          string       `json:"rh_ret"`       // what that RunHandlers call returned: "nil", "err:...", "hung"
+	LateStarted    bool         `json:"late_started"` // whether the late handler was started
 	W1Stuck        bool         `json:"w1_stuck"`  // after a timed-out Close and after EVERY subscription was ended: the handlersWg wait still does not end
 	Rules          []c06Rule    `json:"rules"`
 	Perturb        float64      `json:"perturb"`
@@ -275,7 +278,7 @@ func c06Run(rt *hookrt.Runtime, sc *c06Scenario) {
 		panic(err)
 	}
 	nh := len(sc.Handlers)
-	for h := 0; h < nh; h++ {
+	for h := 0; h <= nh; h++ {
 		rt.AddRule(&hookrt.ParkRule{Point: "api.wait.hc", Keys: []string{fmt.Sprintf("h%d", h)}, Until: "router.handler.handleclose.stop",
 			UntilKeys: []string{fmt.Sprintf("h%d", h)}, Timeout: 3 * time.Second})
 	}
@@ -339,6 +342,30 @@ func c06Run(rt *hookrt.Runtime, sc *c06Scenario) {
 		name := fmt.Sprintf("u%d", i)
 		router.AddNoPublisherHandler(name, "t"+name, newC06Sub(name, true), func(*message.Message) error { return nil })
 	}
+	var lateSub *c06Sub
+	rhDone := make(chan struct{})
+	if sc.LateHandler {
+		name := fmt.Sprintf("h%d", nh)
+		lateSub = newC06Sub(name, true)
+		router.AddNoPublisherHandler(name, "t"+name, lateSub, func(*message.Message) error { return nil })
+		go func() {
+			defer close(rhDone)
+			verifhook.At("api.rh.gate")
+			verifhook.At("api.rh.call")
+			var e error
+			guard("RunHandlers", func() { e = router.RunHandlers(ctx) })
+			mu.Lock()
+			if e == nil {
+				sc.RhRet = "nil"
+			} else {
+				sc.RhRet = "err:" + e.Error()
+			}
+			mu.Unlock()
+			verifhook.At("api.rh.ret")
+		}()
+	} else {
+		close(rhDone)
+	}
 
 	// emitters
 	var emitWg sync.WaitGroup
@@ -380,6 +407,9 @@ func c06Run(rt *hookrt.Runtime, sc *c06Scenario) {
 	callClose := func(c int, wg *sync.WaitGroup) {
 		defer wg.Done()
 		verifhook.At("api.close.gate", fmt.Sprint(c))
+		if sc.LateHandler {
+			time.Sleep(2 * time.Millisecond) // let the RunHandlers call that was just made reach its lock
+		}
 		verifhook.At("api.close.call", fmt.Sprint(c))
 		t0 := time.Now()
 		res := make(chan error, 1)
@@ -469,6 +499,24 @@ func c06Run(rt *hookrt.Runtime, sc *c06Scenario) {
 	for h := range subs {
 		verifhook.At("api.wait.hc", fmt.Sprintf("h%d", h))
 	}
+	if sc.LateHandler {
+		select {
+		case <-rhDone:
+		case <-time.After(time.Duration(sc.CloseTimeoutMs)*time.Millisecond + 4*time.Second):
+			mu.Lock()
+			sc.RhRet = "hung"
+			mu.Unlock()
+			sc.Hung = append(sc.Hung, "RunHandlers hangs: the call made concurrently with Close did not return within CloseTimeout + 4 s")
+		}
+		for _, e := range rt.Log() {
+			if e.Point == "router.handler.handleclose.enter" && len(e.Keys) > 0 && e.Keys[0] == fmt.Sprintf("h%d", nh) {
+				sc.LateStarted = true
+			}
+		}
+		if sc.LateStarted {
+			verifhook.At("api.wait.hc", fmt.Sprintf("h%d", nh))
+		}
+	}
 	time.Sleep(2 * time.Millisecond)
 	verifhook.At("api.quiescent")
 	// one more Close after everything is at rest
@@ -494,6 +542,12 @@ func c06Run(rt *hookrt.Runtime, sc *c06Scenario) {
 	// the Router left open (D6 / context-cancel cases) and let the waiter goroutines of a timed-out Close finish
 	for h := range subs {
 		subs[h].requestClose()
+	}
+	if lateSub != nil {
+		lateSub.requestClose()
+		c, s2 := lateSub.counts()
+		sc.SubCloses = append(sc.SubCloses, c)
+		sc.Subscribes = append(sc.Subscribes, s2)
 	}
 	timedOut := false
 	for _, c := range sc.Calls {
@@ -647,6 +701,30 @@ func c06Forced(honour bool) []*c06Scenario {
 		out = append(out, &c06Scenario{Name: fmt.Sprintf("handler-added-never-started/closers=%d/%s", closers, hn), Kind: "forced", Handlers: hs(false),
 			CloseTimeoutMs: 400, Closers: closers, SecondClose: true, Unstarted: 1,
 			Rules: []c06Rule{{Point: "api.close.gate", Until: "api.handler.end", UntilKeys: []string{target}, TimeoutMs: 400}}})
+	}
+	// RunHandlers (for a handler added to the running router) overlapping Close: RunHandlers holds handlersLock while a
+	// Close call enters (holds closedLock, wants handlersLock), or the other way round, or unforced; every call must return
+	for _, closers := range []int{1, 3} {
+		for _, order := range []string{"runhandlers-holds-lock-while-close-enters", "close-first", "unforced"} {
+			sc := &c06Scenario{Name: fmt.Sprintf("runhandlers-overlaps-close/%s/closers=%d/%s", order, closers, hn), Kind: "forced", Handlers: hs(false),
+				CloseTimeoutMs: 1500, Closers: closers, SecondClose: true, LateHandler: true}
+			switch order {
+			case "runhandlers-holds-lock-while-close-enters":
+				sc.Rules = []c06Rule{
+					{Point: "api.rh.gate", Until: "api.handler.end", UntilKeys: []string{c06UUID(0, 0)}, TimeoutMs: 300},
+					{Point: "router.life.rh.locked", Nth: 2, Until: "router.life.close.clocked", TimeoutMs: 300}, // the 1st arrival is Run's own call
+					{Point: "api.close.gate", Until: "api.rh.call", TimeoutMs: 400}}
+			case "close-first":
+				sc.Rules = []c06Rule{
+					{Point: "api.close.gate", Until: "api.handler.end", UntilKeys: []string{c06UUID(0, 0)}, TimeoutMs: 300},
+					{Point: "api.rh.gate", Until: "router.life.close.clocked", TimeoutMs: 400}}
+			default:
+				sc.Rules = []c06Rule{
+					{Point: "api.close.gate", Until: "api.handler.end", UntilKeys: []string{c06UUID(0, 0)}, TimeoutMs: 300},
+					{Point: "api.rh.gate", Until: "api.handler.end", UntilKeys: []string{c06UUID(0, 0)}, TimeoutMs: 300}}
+			}
+			out = append(out, sc)
+		}
 	}
 	// D5 witness: a received message is dispatched only after the running-handlers wait of Close finished
 	for _, p := range c06Points[:2] {
